@@ -6,27 +6,59 @@ from vlib import prints, MachineryError
 from props import githist as gh
 
 
+FILE_OPS = ["ModifyLabels", "AddRule", "DeleteRule", "AddFile", "DeleteFile", "RenameFile", "RevertLast"]
+DUP_OPS = ["ModifyLabels", "AddRule", "DeleteRule", "SwapRules"]
+
+
 def gen_cases(ctx):
     th = ctx.thorough
-    cases, stats = [], []
+    cases, stats, parts = [], [], []
 
-    def add(name, text, **kw):
+    def add(name, text, budget, **kw):
         cs, r = gh.gen(ctx, name, text, **kw)
-        cases.extend(cs)
-        stats.append({"cfg": name, "emitted": len(cs), "states": r["distinct"], "generated": r["generated"]})
+        d = gh.dedupe(cs)
+        pick = gh.stratify(d, budget, ctx.seed)
+        parts.extend(pick)
+        stats.append({"cfg": name, "emitted": len(cs), "distinct": len(d), "replayed": len(pick),
+                      "states": r["distinct"], "generated": r["generated"]})
 
-    # (1) exhaustive: every history of one file, same-name duplicates possible (the F5 neighbourhood)
+    # (1) exhaustive: every history of one file whose rules share one name (the F5 neighbourhood)
     add("c03_gen_dup.cfg", gh.cfg("EmitCase", npaths=1, names=["n1"], bodies=["v1"], labs=["l1", "l2", "l3"],
-                                   maxrules=3, maxfork=2, commits=2 if not th else 3,
-                                   ops=["ModifyLabels", "AddRule", "DeleteRule", "SwapRules"]))
-    exhaustive = gh.dedupe(cases)
-    # (2) simulation over the wide vocabulary: random prefixes, every successor of every visited history
-    cases = []
-    wide = dict(npaths=2, kinds=["rec", "alr"], names=["n1", "n2"], bodies=["v1", "v2"], labs=["l1", "l2"],
-                cmts=["none", "c1"], pads=[0, 1, 2], maxrules=3, maxfork=3, commits=4, baseadv=1, forkfdis=True)
-    add("c03_sim_wide.cfg", gh.cfg("EmitCase", **wide), simulate=12 if not th else 60, depth=12, workers=1)
-    sim = gh.stratify(gh.dedupe(cases), 1500 if not th else 12000, ctx.seed)
-    return gh.dedupe(exhaustive + sim), stats
+                                   maxrules=3, maxfork=2, commits=2, ops=DUP_OPS), 400 if not th else 2000)
+    # (2) exhaustive: every file-level history over two paths (add / delete / re-add / rename / rename back / revert)
+    add("c03_gen_files.cfg", gh.cfg("EmitCase", npaths=2, names=["n1"], bodies=["v1"], labs=["l1", "l2"],
+                                     maxrules=2, maxfork=2, commits=2 if not th else 3, ops=FILE_OPS),
+        400 if not th else 5000)
+    # (3) simulation over the wide vocabulary: random prefixes, every successor of every visited history
+    wide = dict(npaths=3 if th else 2, kinds=["rec", "alr"], names=["n1", "n2"], bodies=["v1", "v2"], labs=["l1", "l2"],
+                cmts=["none", "c1"], pads=[0, 1, 2], maxrules=3, maxfork=3, commits=4 if not th else 5, baseadv=1, forkfdis=True)
+    add("c03_sim_wide.cfg", gh.cfg("EmitCase", **wide), 500 if not th else 8000,
+        simulate=10 if not th else 60, depth=12 if not th else 14, workers=1)
+    return gh.dedupe(parts), stats
+
+
+def mc_runs(ctx, mode):
+    """MC: the impl-shaped fold + matcher + merge against the documented classification, exhaustively."""
+    th = ctx.thorough
+    inv = "Inv_C03" if mode == "twopass" else "Inv_C03_known"
+    w = 6 if not th else 12
+    runs = [
+        ("c03_mc_dup.cfg", dict(npaths=1, names=["n1", "n2"], bodies=["v1"], labs=["l1", "l2"], maxrules=3, maxfork=2,
+                                commits=2 if not th else 3, ops=DUP_OPS + ["RenameRule"])),
+        ("c03_mc_files.cfg", dict(npaths=2, names=["n1"], bodies=["v1"], labs=["l1", "l2"], maxrules=2, maxfork=2,
+                                  commits=3 if not th else 4, ops=FILE_OPS)),
+    ]
+    if th:
+        runs.append(("c03_mc_fields.cfg", dict(npaths=2, kinds=["rec", "alr"], names=["n1", "n2"], bodies=["v1", "v2"],
+                                               labs=["l1"], cmts=["none", "c1"], pads=[0, 1], maxrules=2, maxfork=2, commits=2,
+                                               forkfdis=True,
+                                               ops=["ModifyExpr", "RenameRule", "ChangeKind", "CommentOnlyEdit", "WhitespaceEdit",
+                                                    "FileDisableEdit", "DeleteRule", "RenameFile", "DeleteFile", "RevertLast"])))
+    out = []
+    for name, kw in runs:
+        out.append(ctx.tlc("GitHistory", name, files={name: gh.cfg(inv, view=True, mode=mode, **kw)},
+                           allow_violation=True, timeout=3000, workers=w, heap="6g" if th else "4g"))
+    return out
 
 
 def run(ctx, cases_override=None):
@@ -68,14 +100,8 @@ def run(ctx, cases_override=None):
     mc_stats = []
     leads = []
     if cases_override is None:
-        inv = "Inv_C03" if mode == "twopass" else "Inv_C03_known"
-        mc = ctx.tlc("GitHistory", "c03_mc.cfg", files={"c03_mc.cfg": gh.cfg(inv, view=True, mode=mode, npaths=1, names=["n1", "n2"],
-                     bodies=["v1"], labs=["l1", "l2"], maxrules=3, maxfork=2, commits=2,
-                     ops=["ModifyLabels", "AddRule", "DeleteRule", "SwapRules", "RenameRule"])},
-                     allow_violation=True, timeout=3000, workers=6)
-        mc_stats.append(mc)
-        if mc["invariant_violated"]:
-            leads.append(mc["invariant_violated"])
+        mc_stats = mc_runs(ctx, mode)
+        leads = [m["invariant_violated"] for m in mc_stats if m["invariant_violated"]]
         if leads and not viols:
             raise MachineryError("model-level counterexample (%s) not reproduced on the real code: spec bug" % leads)
     ncommit = [sum(1 for o in c["log"] if o["ns"]["status"] != "B") for c in cases]
